@@ -348,7 +348,15 @@ func HC18_Exchange() {
 	b := hBuildWorld()
 	w := &b.w
 	idX, idY, idZ, idR := b.ids[0], b.ids[1], b.ids[2], b.ids[3]
-	ex := NewExchange(w).Adds(T2[hRel, hZ]()...).Removes(T2[hX, hY]()...).WithRelation(T[hRel]())
+	var ex *Exchange
+	switch vChoice("order", 3) { // the configuration calls commute
+	case 0:
+		ex = NewExchange(w).Adds(T2[hRel, hZ]()...).Removes(T2[hX, hY]()...).WithRelation(T[hRel]())
+	case 1:
+		ex = NewExchange(w).WithRelation(T[hRel]()).Adds(T2[hRel, hZ]()...).Removes(T2[hX, hY]()...)
+	default:
+		ex = NewExchange(w).Removes(T2[hX, hY]()...).WithRelation(T[hRel]()).Adds(T2[hRel, hZ]()...)
+	}
 	withT := vChoice("target", 2) == 1
 	tgt := ecs.Entity{}
 	var targs []ecs.Entity
